@@ -18,8 +18,8 @@ META = {
     "level_note": "Proved (Raft/Props.v C38_*): sync_from_raft's merge rules keep an in-sync view unchanged; replicating every primitive "
                   "change keeps view and replicated state in sync from the empty coordinator on; a change of each of the 9 kinds that is not "
                   "replicated is reverted. The table 'operation -> kinds of change it makes' (Sync.op_deltas) is hand-written from "
-                  "coordinator.rs; 'operation -> commands it sends' is regenerated from the source on every run; 9 operations change "
-                  "something they do not replicate (known findings, each re-confirmed against the real code every run). Tested, not proved: "
+                  "coordinator.rs; 'operation -> commands it sends' is regenerated from the source on every run; 8 operations change "
+                  "something they do not replicate (8 known findings, re-confirmed against the real code when a history reaches them). Tested, not proved: "
                   "model sync = Coordinator::sync_from_raft on every step of the generated histories; follower = a second Coordinator "
                   "reading the same replicated state (a caught-up follower), 3-node propagation is C37's. The health loop is a closure in "
                   "varpulis-cli main.rs: the harness runs a statement-for-statement copy whose call sequence the translator asserts.",
@@ -30,7 +30,7 @@ KIND = {"register": "register", "deregister": "deregister", "deploy": "deploy", 
         "rebalance": "api_rebalance", "drain": "drain", "failover": "failover", "heartbeat": "recovery",
         "connector_create": "connector_create", "connector_update": "connector_update", "connector_delete": "connector_delete",
         "set_policy": "set_scaling_policy", "tick": "auto_rebalance"}
-KNOWN = ["deploy", "teardown", "manual_migrate", "api_rebalance", "drain", "failover", "auto_rebalance", "recovery", "set_scaling_policy"]
+KNOWN = ["deploy", "teardown", "manual_migrate", "api_rebalance", "drain", "failover", "auto_rebalance", "recovery"]
 
 
 def cls(kind):
